@@ -130,6 +130,9 @@ use any_vec::{AnyVec, AnyVecMut, AnyVecRef, IterMut, IterRef, SatisfyTraits};
 use core::alloc::Layout;
 use core::marker::PhantomData;
 
+fn need_send<T: Send>(_: &T) {}
+fn need_sync<T: Sync>(_: &T) {}
+
 // marker payloads
 pub struct Both;
 pub struct NotSend(PhantomData<std::sync::MutexGuard<'static, ()>>);   // Sync, !Send
@@ -241,6 +244,19 @@ def c15_accept_reject():
         fns.append((f"thread/send-typed-ref/{sn}", f"let v: AnyVec<{st}, Heap> = AnyVec::new::<ESendOnly>(); let r = v.downcast_ref::<ESendOnly>().unwrap(); std::thread::scope(|s| {{ s.spawn(move || r.len()); }});", False) if not s_sync and not s_cl or (not s_sync) else (f"thread/send-typed-ref/{sn}", "", None))
         fns.append((f"thread/send-element-mut/{sn}", f"let mut v: AnyVec<{st}, Heap> = AnyVec::new::<ESS>(); let e = v.at_mut(0); std::thread::scope(|s| {{ s.spawn(move || drop(e)); }});", None if s_send else False))
         fns.append((f"thread/send-drain/{sn}", f"let mut v: AnyVec<{st}, Heap> = AnyVec::new::<ESS>(); let d = v.drain(..); std::thread::scope(|s| {{ s.spawn(move || drop(d)); }});", None if s_send else False))
+    # typed drain / splice return opaque `impl ElementIterator` types: their auto traits can only be probed by value
+    mks = {"Heap": "Heap", "Stack": "Stack::<16>", "StackN": "StackN::<2, 16>", "Empty": "Empty", "BuilderNotSend": "UB::<NotSend, Both>::default()",
+           "BuilderNotSync": "UB::<NotSync, Both>::default()", "MemNotSend": "UB::<Both, NotSend>::default()", "MemNotSync": "UB::<Both, NotSync>::default()"}
+    for bn, bt, b_send, b_sync in BACKENDS:
+        for en, et, e_send, e_sync in ECLASSES:
+            for op, call in [("drain", "t.drain(..)"), ("splice", f"t.splice(.., core::iter::empty::<{et}>())")]:
+                base = f"let mut v: AnyVec<dyn TNone, {bt}> = AnyVec::new_in::<{et}>({mks[bn]}); let mut t = v.downcast_mut::<{et}>().unwrap(); let d = {call};"
+                fns.append((f"typed-{op}/{en}/{bn}/Send", f"{base} need_send(&d);", None if (e_send and b_send) else False))
+                fns.append((f"typed-{op}/{en}/{bn}/Sync", f"{base} need_sync(&d);", None if (e_sync and b_sync) else False))
+            # iterators of the typed views are std slice iterators over T: same rule, checked for completeness
+            base = f"let mut v: AnyVec<dyn TNone, {bt}> = AnyVec::new_in::<{et}>({mks[bn]});"
+            fns.append((f"typed-iter/{en}/{bn}/Send", f"{base} let r = v.downcast_ref::<{et}>().unwrap(); let it = r.iter(); need_send(&it);", None if e_sync else False))
+            fns.append((f"typed-iter_mut/{en}/{bn}/Send", f"{base} let mut t = v.downcast_mut::<{et}>().unwrap(); let it = t.iter_mut(); need_send(&it);", None if e_send else False))
     return fns
 
 
